@@ -99,7 +99,7 @@ theorem sI_applyCmd_mono (j : Job) (cl : Cluster) (e : Env) (cmd : Cmd) :
     (∀ o, o ∈ e.outstanding → o ∈ (applyCmd j cl e cmd).outstanding) := by
   cases cmd with
   | transmit ds a b => exact ⟨fun q h => by simpa [applyCmd] using h, fun o h => by simp [applyCmd, h]⟩
-  | taskSeq w t => exact ⟨fun q h => by simp [applyCmd, h], fun o h => by simpa [applyCmd] using h⟩
+  | taskSeq w t pb => exact ⟨fun q h => by simp [applyCmd, h], fun o h => by simpa [applyCmd] using h⟩
   | fetch ds a => exact ⟨fun q h => by simpa [applyCmd] using h, fun o h => by simp [applyCmd, h]⟩
   | purge a ds => exact ⟨fun q h => by simpa [applyCmd] using h, fun o h => by simpa [applyCmd] using h⟩
 
@@ -116,7 +116,7 @@ theorem sI_applyCmds_mono (j : Job) (cl : Cluster) (cmds : List Cmd) (e : Env) :
 
 /-- the commands of one assignment: transfers first (they do not touch `queued`/`present`), then the task sequence -/
 theorem sI_act_env (j : Job) (cl : Cluster) (e : Env) (a : Asg) (prep : List (Ds × Host)) :
-    ∃ e1, applyCmds j cl e (actCmds a prep) = applyCmd j cl e1 (.taskSeq a.worker a.task) ∧
+    ∃ e1, applyCmds j cl e (actCmds j a prep) = applyCmd j cl e1 (.taskSeq a.worker a.task (asgOutputs j a.task)) ∧
       e1.queued = e.queued ∧ e1.present = e.present ∧ (∀ o, o ∈ e.outstanding → o ∈ e1.outstanding) := by
   refine ⟨applyCmds j cl e ((prep.filter (fun p => p.2 != a.worker.host)).map (fun p => Cmd.transmit p.1 p.2 a.worker.host)),
     by simp [applyCmds, actCmds, List.foldl_append], ?_, ?_, ?_⟩
@@ -296,7 +296,7 @@ theorem sI_W2_step (f : Sem) (j : Job) (cl : Cluster) (s s' : Sys) (st : Step) (
     · rename_i c prep hr
       cases hs
       obtain ⟨e1, hsplit, hq1, hp1, ho1⟩ := sI_act_env j cl s.env a prep
-      have hv : "C02 input-neither-present-nor-in-transfer" ∉ (applyCmd j cl e1 (.taskSeq a.worker a.task)).viol := by
+      have hv : "C02 input-neither-present-nor-in-transfer" ∉ (applyCmd j cl e1 (.taskSeq a.worker a.task (asgOutputs j a.task))).viol := by
         rw [← hsplit]; exact hA'.h4.no_input_absent
       rw [mem_viol_taskSeq] at hv
       have hall : (j.inputs a.task).all (fun d => (e1.present a.worker.host d).isSome || inboundTransmit e1 d a.worker.host) = true := by
@@ -307,8 +307,8 @@ theorem sI_W2_step (f : Sem) (j : Job) (cl : Cluster) (s s' : Sys) (st : Step) (
       intro w t hq ds hds
       simp only [hsplit] at hq ⊢
       have hq' : (w, t) ∈ e1.queued ++ [(a.worker, a.task)] := by simpa [applyCmd] using hq
-      have hpr : (applyCmd j cl e1 (.taskSeq a.worker a.task)).present = e1.present := by simp [applyCmd]
-      have hou : (applyCmd j cl e1 (.taskSeq a.worker a.task)).outstanding = e1.outstanding := by simp [applyCmd]
+      have hpr : (applyCmd j cl e1 (.taskSeq a.worker a.task (asgOutputs j a.task))).present = e1.present := by simp [applyCmd]
+      have hou : (applyCmd j cl e1 (.taskSeq a.worker a.task (asgOutputs j a.task))).outstanding = e1.outstanding := by simp [applyCmd]
       have key : (e1.present w.host ds).isSome = true ∨ inboundTransmit e1 ds w.host = true := by
         rcases List.mem_append.mp hq' with hq' | hq'
         · rw [hq1] at hq'
@@ -358,7 +358,7 @@ theorem sI_W2_step (f : Sem) (j : Job) (cl : Cluster) (s s' : Sys) (st : Step) (
       have hcm := purgeHosts_cmds cl ds0 cl.hosts s.ctl c cmds hr
       obtain ⟨ho, _, _, hpo, _, _⟩ := i3_applyCmds_purge j cl ds0 cmds s.env hcm
       have hqq := (applyCmds_notTask j cl cmds s.env (by
-        intro cmd hm w t he
+        intro cmd hm w t pb he
         obtain ⟨h', rfl⟩ := hcm cmd hm
         cases he)).1
       intro w t hq' ds hds
@@ -403,6 +403,7 @@ theorem sI_W2_step (f : Sem) (j : Job) (cl : Cluster) (s s' : Sys) (st : Step) (
   | env es =>
     simp only [step] at hs
     split at hs; · cases hs
+    rw [envStepP_eq f j s.env es hA.h1.no_trim] at hs
     cases he : envStep f j s.env es with
     | none => simp [he] at hs
     | some e =>
